@@ -144,7 +144,8 @@ if _parse_version(_np.__version__) < _MIN_NUMPY_VERSION:
 		case *dsl.NamedType:
 			if gt, ok := node.Type.(*dsl.GeneralizedType); ok && gt.Cases.IsUnion() {
 				// We use the alias name for the union type, which will be imported
-				// below.
+				// below. Unions nested inside it have classes of their own.
+				self.VisitChildren(gt)
 				return
 			}
 		case *dsl.GeneralizedType:
